@@ -116,6 +116,49 @@ def _sum_float(d):
     return s
 
 
+# The model's image of a data *object* (FloatDataType / FloatDataCollection / NoDataType instance) that a probe
+# stored in the context (CopyDataProbe).  It compares, hashes and serialises like the plain value, so results and
+# contexts are compared as usual; but what a leaf component, a template or a sweep does when such an object is
+# handed to it as a *parameter* (``float(obj)``, ``str(obj)``, ``obj * 2``) is a property of the data-type classes,
+# not of the pipeline semantics: run_pipeline records a don't-care when one is consumed.
+class DataObjFloat(float):
+    pass
+
+
+class DataObjList(list):
+    pass
+
+
+class DataObjStr(str):
+    pass
+
+
+def as_data_object(d):
+    if isinstance(d, bool):
+        return d
+    if isinstance(d, float):
+        return DataObjFloat(d)
+    if isinstance(d, list):
+        return DataObjList(d)
+    if isinstance(d, str):
+        return DataObjStr(d)
+    return d
+
+
+def is_data_object(v) -> bool:
+    return isinstance(v, (DataObjFloat, DataObjList, DataObjStr))
+
+
+def _filesink(d, w, path):
+    import os as _os
+
+    if not isinstance(path, str):
+        raise TypeError("path must be a string")
+    if not _os.path.isdir(_os.path.dirname(path) or "."):
+        raise FileNotFoundError(path)   # the sink appends to a file, it does not create directories
+    return None
+
+
 COMPONENTS: dict[str, Comp] = {}
 
 
@@ -152,14 +195,14 @@ _c("VTagProbe", "probe", "Float", None, [("tag", "t")], lambda d, w, tag="t": f"
 _c("VNoneProbe", "probe", "Float", None, [], lambda d, w: None)
 _c("FloatBasicProbe", "probe", "Float", None, [], _basic_probe, recorded=False)
 _c("FloatCollectValueProbe", "probe", "Float", None, [], lambda d, w: d, recorded=False)
-_c("CopyDataProbe", "probe", "Any", None, [], lambda d, w: d, recorded=False)
+_c("CopyDataProbe", "probe", "Any", None, [], lambda d, w: as_data_object(d), recorded=False)
 # context processors
 _c("VCtxScale", "ctx", "Any", None, [("base", REQ), ("k", 3.0)], _ctxscale, created=("scaled",))
 _c("VCtxBadWriter", "ctx", "Any", None, [], _badwrite, created=("declared_only",), fault="undeclared_write")
 _c("VCtxBoom", "ctx", "Any", None, [("fuse", 1.0)], lambda d, w, fuse=1.0: _boom(d, w, fuse), fault="boom")
 _c("VCtxInterrupt", "ctx", "Any", None, [], _abort, fault="abort")
 # sinks
-_c("VFileSink", "sink", "Float", "Float", [("path", REQ)], lambda d, w, path: None)
+_c("VFileSink", "sink", "Float", "Float", [("path", REQ)], _filesink)
 _c("VNullSink", "sink", "Float", "Float", [("tag", "t")], lambda d, w, tag="t": None)
 _c("FloatDataSink", "sink", "Float", "Float", [], lambda d, w: None, recorded=False)
 _c("FloatTxtFileSaver", "sink", "Float", "Float", [("path", REQ)], lambda d, w, path: None, recorded=False)
@@ -477,6 +520,8 @@ def run_pipeline(nodes: list, data: Any = NODATA, ctx: Optional[dict] = None, *,
             nt.data_out = data
             continue
         nt.params = dict(resolved)
+        if any(is_data_object(v) for v in resolved.values()):
+            res.dontcare.append(("data_object_as_parameter", nm.index))
 
         def writer(allowed):
             def w(key, value):
